@@ -7,6 +7,8 @@ THEOREMS = ['FlexVerif.bufferOp_start', 'FlexVerif.match_conserves', 'FlexVerif.
 STACK_THEOREMS = ['FlexVerif.C11Stack.' + t for t in ('ensure_spec', 'push_refines', 'pop_refines', 'switch_refines', 'current_refines',
                                                       'stack_refines', 'current_after', 'deleted_after')]
 
+STACK_THEOREMS += ['FlexVerif.C11StackC99.' + t for t in ('push_same', 'pop_same', 'switch_same', 'ensure_same', 'stack_refines_c99', 'current_after_c99')]
+
 
 def regen_bufstack():
     """translate yyensure_buffer_stack / yypush_buffer_state / yypop_buffer_state / yy_switch_to_buffer / yy_current_buffer() from a
@@ -16,15 +18,19 @@ def regen_bufstack():
     flex, src = flexrun.build_flex()
     try:
         body, info = gen_bufstack.generate(flex, flexrun.scratch_root())
+        body99, info99 = gen_bufstack.generate_c99(flex, flexrun.scratch_root())
     except gen_bufstack.TranslateError as e:
         return None, str(e)
-    path = os.path.join(common.LEAN_DIR, 'FlexVerif', 'Gen', 'BufStack.lean')
+    info = dict(info or {}); info['c99'] = info99
+    files = [(os.path.join(common.LEAN_DIR, 'FlexVerif', 'Gen', 'BufStack.lean'), body),
+             (os.path.join(common.LEAN_DIR, 'FlexVerif', 'Gen', 'BufStackC99.lean'), body99)]
     lock = open(os.path.join(common.LEAN_DIR, '.build.lock'), 'w')
     fcntl.flock(lock, fcntl.LOCK_EX)
     try:
-        old = open(path).read() if os.path.exists(path) else ''
-        if old != body:
-            open(path, 'w').write(body)
+        for path, text in files:
+            old = open(path).read() if os.path.exists(path) else ''
+            if old != text:
+                open(path, 'w').write(text)
     finally:
         fcntl.flock(lock, fcntl.LOCK_UN)
         lock.close()
